@@ -39,14 +39,41 @@ type genRes struct {
 }
 
 type simGen struct {
-	w     *World
-	mu    sync.Mutex
-	calls  int
-	failed int
-	nextEven int
+	w         *World
+	mu        sync.Mutex
+	calls     int
+	failed    int
+	rangeFull int // the library's own generator found no free port
+	nextEven  int
 	dialDelay time.Duration // AllocateConn takes this long (virtual) before the peer answers
-	made   []*genRes
-	conns []allocation.AllocateConnConfig
+	made      []*genRes
+	conns     []allocation.AllocateConnConfig
+	// inner, when set, is one of the library's own relay address generators (on simnet's
+	// transport.Net): UDP relay sockets come from it, simGen only keeps the books
+	inner turn.RelayAddressGenerator
+}
+
+// genRand is the deterministic random source handed to the library's port-range generator.
+type genRand struct{ s uint64 }
+
+func (r *genRand) next() uint64 {
+	r.s += 0x9e3779b97f4a7c15
+	z := r.s
+	z = (z ^ (z >> 30)) * 0xbf58476d1ce4e5b9
+	z = (z ^ (z >> 27)) * 0x94d049bb133111eb
+
+	return z ^ (z >> 31)
+}
+func (r *genRand) Intn(n int) int { return int(r.next() % uint64(max(n, 1))) } //nolint:gosec
+func (r *genRand) Uint32() uint32 { return uint32(r.next()) }                  //nolint:gosec
+func (r *genRand) Uint64() uint64 { return r.next() }
+func (r *genRand) GenerateString(n int, runes string) string {
+	out := make([]byte, n)
+	for i := range out {
+		out[i] = runes[r.Intn(len(runes))]
+	}
+
+	return string(out)
 }
 
 func (g *simGen) Validate() error { return nil }
@@ -79,6 +106,21 @@ func (g *simGen) AllocatePacketConn(conf turn.AllocateListenerConfig) (net.Packe
 	ip := relayIPFor(conf.Network)
 	var s *sim.UDPSock
 	var err error
+	if g.inner != nil {
+		pc, adv, ierr := g.inner.AllocatePacketConn(conf)
+		if ierr != nil {
+			g.rangeFull++
+
+			return nil, nil, ierr
+		}
+		us, ok := pc.(*sim.UDPSock)
+		if !ok {
+			return nil, nil, errors.New("simGen: the library's generator returned a foreign socket type")
+		}
+		g.made = append(g.made, &genRes{Kind: "udp", Sock: us, Step: g.w.stepNo, Net: conf.Network, RPort: conf.RequestedPort})
+
+		return pc, adv, nil
+	}
 	if conf.RequestedPort != 0 {
 		s, err = g.w.net.BindUDP(conf.Network, ip, conf.RequestedPort)
 	} else {
@@ -157,31 +199,31 @@ type Client struct {
 	HasAlloc  bool
 	// freshChallenge: the nonce in Nonce was issued by the very last response to this client
 	freshChallenge bool
-	txn       uint32
+	txn            uint32
 }
 
 // World is one server world.
 type World struct {
-	cfg     Config
-	net     *sim.Net
-	log     *sim.Logger
-	srv     *turn.Server
-	srvSock *sim.UDPSock
-	srvAddr *net.UDPAddr
-	tcpLis  *sim.Listener
-	gen     *simGen
-	clients []*Client
-	peers   []*sim.UDPSock
-	evMu    sync.Mutex
-	events  []Event
-	mgrs    []*allocation.Manager
-	stepNo  int
-	t0      time.Time
-	authSleep time.Duration
+	cfg              Config
+	net              *sim.Net
+	log              *sim.Logger
+	srv              *turn.Server
+	srvSock          *sim.UDPSock
+	srvAddr          *net.UDPAddr
+	tcpLis           *sim.Listener
+	gen              *simGen
+	clients          []*Client
+	peers            []*sim.UDPSock
+	evMu             sync.Mutex
+	events           []Event
+	mgrs             []*allocation.Manager
+	stepNo           int
+	t0               time.Time
+	authSleep        time.Duration
 	extraClientSocks []*sim.UDPSock
-	curOp   string
-	model   *Model
-	closed  bool
+	curOp            string
+	model            *Model
+	closed           bool
 	// callback bookkeeping
 	cbActive int
 	trace    []string
@@ -232,6 +274,16 @@ func (w *World) clientIndex(a net.Addr) int {
 func NewWorld(cfg Config, verbose bool) (*World, error) {
 	w := &World{cfg: cfg, net: sim.NewNet(), log: sim.NewLogger(120), verbose: verbose, t0: time.Now()}
 	w.gen = &simGen{w: w}
+	if cfg.RealGenPorts > 0 {
+		// the library's port-range generator over a small range: collisions are frequent, and every
+		// one of them must end in a retry or a clean failure, never in a shared relay port
+		inner := &turn.RelayAddressGeneratorPortRange{RelayAddress: RelayIP4, Address: RelayIP4.String(), MinPort: 41000,
+			MaxPort: uint16(41000 + cfg.RealGenPorts - 1), MaxRetries: 12, Rand: &genRand{s: uint64(cfg.RealGenPorts)*7919 + uint64(len(cfg.Clients))}, Net: &sim.TNet{N: w.net}} //nolint:gosec
+		if verr := inner.Validate(); verr != nil {
+			return nil, verr
+		}
+		w.gen.inner = inner
+	}
 	w.model = newModel(&w.cfg)
 	sip := ServerIP4
 	network := "udp4"
